@@ -532,6 +532,15 @@ func init() {
 					c18Check(c, sub, m)
 					c.NonTrivial("mut", string(m))
 				}
+				tms := gen.TokenMutants(doc)
+				if len(tms) > 600 {
+					tms = tms[:600]
+				}
+				for _, m := range tms {
+					sub++
+					c18Check(c, sub, m)
+				}
+				c.Obs("token_mutants", int64(len(tms)))
 				c.Obs("generated_docs", 1)
 				c.Sample(map[string]any{"family": "generated+mutants", "base": string(doc), "cases": sub})
 			case c.Idx > n*n+nmut+1:
